@@ -174,27 +174,31 @@ Proof. intros [ext ->] H. unfold read_all. now rewrite arr_of_app_old. Qed.
    objects it allocates itself); its result satisfies Q *)
 
 Definition safe {A} (P : nat -> nat -> Prop) (W : nat -> Prop) (n : nat) (c : M A) (Q : A -> Prop) : Prop :=
-  forall m a m', n <= length m -> c m = Some (a, m') -> same_outside P W n m m' /\ Q a.
+  forall m o m', n <= length m -> c m = (o, m') -> same_outside P W n m m' /\ (forall a, o = Some a -> Q a).
 
 Lemma safe_ret {A} P W n (a : A) (Q : A -> Prop) : Q a -> safe P W n (ret a) Q.
-Proof. intros HQ m a' m' Hn H. injection H as <- <-. split; [now apply same_outside_refl|exact HQ]. Qed.
+Proof.
+  intros HQ m o m' Hn H. injection H as <- <-. split; [now apply same_outside_refl|].
+  intros a' E. injection E as <-. exact HQ.
+Qed.
 
 Lemma safe_fail {A} P W n (Q : A -> Prop) : safe P W n fail Q.
-Proof. intros m a m' _ H. discriminate. Qed.
+Proof. intros m o m' Hn H. injection H as <- <-. split; [now apply same_outside_refl|discriminate]. Qed.
 
 Lemma safe_bind {A B} P W n (c : M A) (k : A -> M B) (Q : A -> Prop) (R : B -> Prop) :
   safe P W n c Q -> (forall a, Q a -> safe P W n (k a) R) -> safe P W n (bind c k) R.
 Proof.
-  intros Hc Hk m b m'' Hn H. unfold bind in H. destruct (c m) as [[a m']|] eqn:Ec; [|discriminate].
-  destruct (Hc m a m' Hn Ec) as [S1 HQ].
-  assert (Hn' : n <= length m') by (destruct S1 as (_ & ? & _); lia).
-  destruct (Hk a HQ m' b m'' Hn' H) as [S2 HR].
-  split; [eapply same_outside_trans; eassumption|exact HR].
+  intros Hc Hk m o m'' Hn H. unfold bind in H. destruct (c m) as [[a|] m'] eqn:Ec.
+  - destruct (Hc m (Some a) m' Hn Ec) as [S1 HQ].
+    assert (Hn' : n <= length m') by (destruct S1 as (_ & ? & _); lia).
+    destruct (Hk a (HQ a eq_refl) m' o m'' Hn' H) as [S2 HR].
+    split; [eapply same_outside_trans; eassumption|exact HR].
+  - injection H as <- <-. destruct (Hc m None m' Hn Ec) as [S1 _]. split; [exact S1|discriminate].
 Qed.
 
 Lemma safe_weaken {A} P W n (c : M A) (Q Q' : A -> Prop) :
   safe P W n c Q -> (forall a, Q a -> Q' a) -> safe P W n c Q'.
-Proof. intros H HQ m a m' Hn E. destruct (H m a m' Hn E). auto. Qed.
+Proof. intros H HQ m o m' Hn E. destruct (H m o m' Hn E) as [S F]. split; [exact S|]. intros a Ea. auto. Qed.
 
 Lemma safe_for_each {X S} P W n (xs : list X) (body : X -> S -> M S) (Q : S -> Prop) :
   (forall x st, Q st -> safe P W n (body x st) Q) -> forall st, Q st -> safe P W n (for_each xs body st) Q.
@@ -236,23 +240,24 @@ Qed.
 
 (* the computation does not touch the memory at all *)
 Definition pure_on {A} (c : M A) (Q : A -> Prop) : Prop :=
-  forall m a m', c m = Some (a, m') -> m' = m /\ Q a.
+  forall m o m', c m = (o, m') -> m' = m /\ (forall a, o = Some a -> Q a).
 
 Lemma pure_safe {A} P W n (c : M A) Q : pure_on c Q -> safe P W n c Q.
-Proof. intros H m a m' Hn E. destruct (H m a m' E) as [-> HQ]. split; [now apply same_outside_refl|exact HQ]. Qed.
+Proof. intros H m o m' Hn E. destruct (H m o m' E) as [-> HQ]. split; [now apply same_outside_refl|exact HQ]. Qed.
 
 Lemma pure_ret {A} (a : A) (Q : A -> Prop) : Q a -> pure_on (ret a) Q.
-Proof. intros HQ m a' m' H. injection H as <- <-. auto. Qed.
+Proof. intros HQ m o m' H. injection H as <- <-. split; [reflexivity|]. intros a' E. injection E as <-. exact HQ. Qed.
 Lemma pure_fail {A} (Q : A -> Prop) : pure_on (@fail A) Q.
-Proof. intros m a m' H. discriminate. Qed.
+Proof. intros m o m' H. injection H as <- <-. split; [reflexivity|discriminate]. Qed.
 Lemma pure_bind {A B} (c : M A) (k : A -> M B) (Q : A -> Prop) (R : B -> Prop) :
   pure_on c Q -> (forall a, Q a -> pure_on (k a) R) -> pure_on (bind c k) R.
 Proof.
-  intros Hc Hk m b m'' H. unfold bind in H. destruct (c m) as [[a m']|] eqn:Ec; [|discriminate].
-  destruct (Hc m a m' Ec) as [-> HQ]. now apply (Hk a HQ).
+  intros Hc Hk m o m'' H. unfold bind in H. destruct (c m) as [[a|] m'] eqn:Ec.
+  - destruct (Hc m (Some a) m' Ec) as [-> HQ]. now apply (Hk a (HQ a eq_refl)).
+  - injection H as <- <-. destruct (Hc m None m' Ec) as [-> _]. split; [reflexivity|discriminate].
 Qed.
 Lemma pure_weaken {A} (c : M A) (Q Q' : A -> Prop) : pure_on c Q -> (forall a, Q a -> Q' a) -> pure_on c Q'.
-Proof. intros H HQ m a m' E. destruct (H m a m' E). auto. Qed.
+Proof. intros H HQ m o m' E. destruct (H m o m' E) as [-> F]. split; [reflexivity|]. intros a Ea. auto. Qed.
 Lemma pure_for_each {X S} (xs : list X) (body : X -> S -> M S) (Q : S -> Prop) :
   (forall x st, Q st -> pure_on (body x st) Q) -> forall st, Q st -> pure_on (for_each xs body st) Q.
 Proof.
@@ -270,12 +275,12 @@ Proof.
 Qed.
 
 Lemma pure_rd s i : pure_on (rd s i) (fun _ => True).
-Proof. intros m a m' H. unfold rd in H. destruct (i <? s_len s); [|discriminate]. injection H as <- <-. auto. Qed.
+Proof. intros m o m' H. unfold rd in H. destruct (i <? s_len s); injection H as <- <-; auto. Qed.
 
 Lemma pure_values s : pure_on (values s) (fun vs => length vs <= s_len s).
 Proof.
-  intros m a m' H. unfold values in H. injection H as <- <-. split; [reflexivity|].
-  unfold read_all. rewrite firstn_length. lia.
+  intros m o m' H. unfold values in H. injection H as <- <-. split; [reflexivity|].
+  intros a E. injection E as <-. unfold read_all. rewrite firstn_length. lia.
 Qed.
 
 Lemma pure_reslice s lo hi :
@@ -283,16 +288,15 @@ Lemma pure_reslice s lo hi :
           (fun r => s_arr r = s_arr s /\ s_off r = s_off s + lo /\ s_len r = hi - lo /\
                     s_cap r = s_cap s - lo /\ lo <= hi /\ hi <= s_cap s).
 Proof.
-  intros m a m' H. unfold reslice in H.
-  destruct ((lo <=? hi) && (hi <=? s_cap s)) eqn:E; [|discriminate].
-  injection H as <- <-. apply andb_prop in E as [E1 E2].
+  unfold reslice. destruct ((lo <=? hi) && (hi <=? s_cap s)) eqn:E; [|apply pure_fail].
+  apply pure_ret. apply andb_prop in E as [E1 E2].
   apply Nat.leb_le in E1. apply Nat.leb_le in E2. cbn. auto 10.
 Qed.
 
 Lemma pure_entries id : pure_on (m_entries id) (fun _ => True).
-Proof. intros m a m' H. unfold m_entries in H. injection H as <- <-. auto. Qed.
+Proof. intros m o m' H. unfold m_entries in H. injection H as <- <-. auto. Qed.
 Lemma pure_lookup id k : pure_on (m_lookup id k) (fun _ => True).
-Proof. intros m a m' H. unfold m_lookup in H. injection H as <- <-. auto. Qed.
+Proof. intros m o m' H. unfold m_lookup in H. injection H as <- <-. auto. Qed.
 
 (* ---------- read-only computations, solved by one tactic ---------- *)
 
@@ -320,8 +324,10 @@ Lemma ro_lookup id k : ro (m_lookup id k).
 Proof. apply pure_lookup. Qed.
 Lemma ro_rd_elem {A} (tbl : Z -> A) outer j : ro (rd_elem tbl outer j).
 Proof. unfold rd_elem. apply ro_bind; [apply ro_rd|]. intros c. apply ro_ret. Qed.
-Lemma ro_pure {A} (c : M A) (Q : A -> Prop) : ro c -> (forall m a, c m = Some (a, m) -> Q a) -> pure_on c Q.
-Proof. intros H HQ m a m' E. destruct (H m a m' E) as [-> _]. split; [reflexivity|]. now apply (HQ m). Qed.
+Lemma ro_pure {A} (c : M A) (Q : A -> Prop) : ro c -> (forall m a, c m = (Some a, m) -> Q a) -> pure_on c Q.
+Proof.
+  intros H HQ m o m' E. destruct (H m o m' E) as [-> _]. split; [reflexivity|]. intros a ->. now apply (HQ m).
+Qed.
 
 Ltac ro_tac :=
   repeat first
@@ -346,8 +352,8 @@ Definition inP (P : nat -> nat -> Prop) (s : slice) : Prop :=
 
 Lemma safe_alloc P W n a : safe P W n (alloc a) (fun id => n <= id).
 Proof.
-  intros m id m' Hn H. unfold alloc in H. injection H as <- <-.
-  split; [now apply same_outside_alloc|exact Hn].
+  intros m o m' Hn H. unfold alloc in H. injection H as <- <-.
+  split; [now apply same_outside_alloc|]. intros id E. injection E as <-. exact Hn.
 Qed.
 
 Lemma safe_make_map P W n : safe P W n make_map (fun id => n <= id).
@@ -367,8 +373,9 @@ Proof. eapply safe_weaken; [apply safe_make_slice|]. intros s (H & _). now left.
 
 Lemma safe_wr P W n s i v : okS n s \/ inP P s -> safe P W n (wr s i v) (fun _ => True).
 Proof.
-  intros Hs m a m' Hn H. unfold wr in H. destruct (Nat.ltb_spec i (s_len s)) as [Hi|Hi]; [|discriminate].
-  injection H as <- <-. split; [|exact I].
+  intros Hs m o m' Hn H. unfold wr in H. destruct (Nat.ltb_spec i (s_len s)) as [Hi|Hi]; injection H as <- <-.
+  2:{ split; [now apply same_outside_refl|discriminate]. }
+  split; [|auto].
   apply same_outside_write_cell; [exact Hn|].
   destruct Hs as [[Hs|[Hs _]]|Hs]; [now left|lia|right; now apply Hs].
 Qed.
@@ -383,7 +390,7 @@ Qed.
 
 Lemma safe_copy_go P W n dst vs : okS n dst \/ inP P dst -> safe P W n (copy_go dst vs) (fun _ => True).
 Proof.
-  intros Hs m a m' Hn H. unfold copy_go in H. injection H as <- <-. split; [|exact I].
+  intros Hs m o m' Hn H. unfold copy_go in H. injection H as <- <-. split; [|auto].
   apply same_outside_write_from; [exact Hn|].
   destruct Hs as [[Hs|[Hs _]]|Hs].
   - now left.
@@ -400,13 +407,13 @@ Lemma safe_append (P : nat -> nat -> Prop) W n slack s (vs : list Z) :
                  ((s_arr r = s_arr s /\ s_off r = s_off s /\ s_cap r = s_cap s /\ s_len s + length vs <= s_cap s)
                   \/ n <= s_arr r)).
 Proof.
-  intros Hs m r m' Hn H. unfold append in H.
+  intros Hs m o m' Hn H. unfold append in H.
   destruct (Nat.leb_spec (s_len s + length vs) (s_cap s)) as [Hfit|Hfit]; injection H as <- <-.
-  - split; [|cbn; split; [reflexivity|left; auto]].
+  - split; [|intros r E; injection E as <-; cbn; split; [reflexivity|left; auto]].
     apply same_outside_write_from; [exact Hn|].
     destruct Hs as [[Hs|[Hl Hc]]|Hs]; [now left| |right; now apply Hs].
     right. intros j Hj. lia.
-  - split; [now apply same_outside_alloc|]. cbn. auto.
+  - split; [now apply same_outside_alloc|]. intros r E. injection E as <-. cbn. auto.
 Qed.
 
 (* appending to a slice that cannot reach old arrays yields another such slice *)
@@ -423,12 +430,12 @@ Proof. right. auto. Qed.
 (* map stores: the map is new, or it is one of the maps W *)
 Lemma safe_m_store P (W : nat -> Prop) n id k v : (n <= id \/ W id) -> safe P W n (m_store id k v) (fun _ => True).
 Proof.
-  intros Hw m a m' Hn H. unfold m_store in H. injection H as <- <-. split; [|exact I].
+  intros Hw m o m' Hn H. unfold m_store in H. injection H as <- <-. split; [|auto].
   now apply same_outside_set_obj.
 Qed.
 Lemma safe_m_delete P (W : nat -> Prop) n id k : (n <= id \/ W id) -> safe P W n (m_delete id k) (fun _ => True).
 Proof.
-  intros Hw m a m' Hn H. unfold m_delete in H. injection H as <- <-. split; [|exact I].
+  intros Hw m o m' Hn H. unfold m_delete in H. injection H as <- <-. split; [|auto].
   now apply same_outside_set_obj.
 Qed.
 
@@ -494,18 +501,6 @@ Lemma map_scan_ro cond hit miss id : ro (map_scan cond hit miss id).
 Proof. unfold map_scan. ro_tac. Qed.
 Lemma find_key_mem_ro fn id : ro (find_key_mem fn id).
 Proof. unfold find_key_mem. ro_tac. Qed.
-
-(* induction on the nested argument of Flatten *)
-Lemma nest_ind' (Pn : nest -> Prop) :
-  (forall v, Pn (NItem v)) -> (forall s, Pn (NSlice s)) -> (forall l, Forall Pn l -> Pn (NList l)) -> Pn NBad ->
-  forall x, Pn x.
-Proof.
-  intros Hi Hs Hl Hb. fix F 1. intros [v|s|l|].
-  - apply Hi.
-  - apply Hs.
-  - apply Hl. induction l as [|x l IH]; constructor; [apply F|exact IH].
-  - exact Hb.
-Qed.
 
 (* ------------------------------------------------------------------ *)
 (* the helpers that build their result in fresh storage                  *)
@@ -595,24 +590,22 @@ Section Fresh.
 
   Definition ok_opt (r : option slice) : Prop := match r with Some s => okS n s | None => True end.
 
-  Lemma base_flatten_safe x : forall acc, okS n acc -> safe P W n (base_flatten slack acc x) ok_opt.
+  Lemma base_flatten_safe fuel atbl : forall x acc, okS n acc -> safe P W n (base_flatten slack fuel atbl acc x) ok_opt.
   Proof.
-    induction x as [v|s|l IH|] using nest_ind'; intros acc Hacc; cbn [base_flatten].
-    - sbind. now apply safe_ret.
-    - rd_step. sbind. now apply safe_ret.
-    - revert acc Hacc. induction IH as [|x l Hx Hl IHl]; intros acc Hacc.
-      + now apply safe_ret.
-      + eapply safe_bind; [now apply Hx|]. intros [acc'|] Hr; [now apply IHl|now apply safe_ret].
-    - now apply safe_ret.
+    induction fuel as [|f IH]; intros x acc Hacc; destruct x as [v|s|l|]; cbn [base_flatten];
+      try (sbind; now apply safe_ret); try (rd_step; sbind; now apply safe_ret);
+      try (now apply safe_ret); try apply safe_fail.
+    apply (safe_for_each P W n _ _ ok_opt); [|exact Hacc]. intros i st Hst.
+    destruct st as [acc'|]; [|now apply safe_ret]. rd_as c. now apply IH.
   Qed.
 
-  Lemma flatten_go_safe x : safe P W n (flatten_go slack x) (okS n).
+  Lemma flatten_go_safe fuel atbl x : safe P W n (flatten_go slack fuel atbl x) (okS n).
   Proof.
     unfold flatten_go. eapply safe_bind; [apply base_flatten_safe, okS_empty|].
     intros [r|] Hr; apply safe_ret; [exact Hr|apply okS_empty].
   Qed.
 
-  Lemma union_go_safe x : safe P W n (union_go slack x) (okS n).
+  Lemma union_go_safe fuel atbl x : safe P W n (union_go slack fuel atbl x) (okS n).
   Proof.
     unfold union_go. eapply safe_bind; [apply base_flatten_safe, okS_empty|].
     intros [r|] Hr; [apply unique_go_safe|apply safe_ret, okS_empty].
@@ -734,13 +727,13 @@ Section Fresh.
   Proof.
     induction fuel as [|f IH]; intros i step e acc Hacc; cbn [range_up].
     - destruct (i <? e)%Z; [apply safe_fail|now apply safe_ret].
-    - destruct (i <? e)%Z; [|now apply safe_ret]. sbind. now apply IH.
+    - destruct (i <? e)%Z; [|now apply safe_ret]. sbind. destruct (_ <? _)%Z; [now apply safe_ret|now apply IH].
   Qed.
   Lemma range_down_safe fuel : forall i step e acc, okS n acc -> safe P W n (range_down slack fuel i step e acc) (okS n).
   Proof.
     induction fuel as [|f IH]; intros i step e acc Hacc; cbn [range_down].
     - destruct (e <? i)%Z; [apply safe_fail|now apply safe_ret].
-    - destruct (e <? i)%Z; [|now apply safe_ret]. sbind. now apply IH.
+    - destruct (e <? i)%Z; [|now apply safe_ret]. sbind. destruct (_ >? _)%Z; [now apply safe_ret|now apply IH].
   Qed.
 
   Lemma range_go_safe args : safe P W n (range_go slack args) ok_opt.
@@ -893,12 +886,10 @@ Lemma drop_go_pure s z : pure_on (drop_go s z) (fun r => within s r \/ r = empty
 Proof.
   unfold drop_go. destruct ((0 <? z)%Z && (z <? Z.of_nat (s_len s))%Z)%bool eqn:E1.
   - apply andb_prop in E1 as [E1 E2]. apply Z.ltb_lt in E1. apply Z.ltb_lt in E2.
-    intros m r m' H. destruct (pure_reslice _ _ _ m r m' H) as [-> (Ha & Ho & Hl & _ & Hle & _)].
-    split; [reflexivity|]. left. unfold within. lia.
+    eapply pure_weaken; [apply pure_reslice|]. intros r (Ha & Ho & Hl & _ & Hle & _). left. unfold within. lia.
   - destruct ((z <=? 0)%Z && (- Z.of_nat (s_len s) <? z)%Z)%bool eqn:E2; [|apply pure_ret; now right].
     apply andb_prop in E2 as [E2 E3]. apply Z.leb_le in E2. apply Z.ltb_lt in E3.
-    intros m r m' H. destruct (pure_reslice _ _ _ m r m' H) as [-> (Ha & Ho & Hl & _ & Hle & _)].
-    split; [reflexivity|]. left. unfold within. lia.
+    eapply pure_weaken; [apply pure_reslice|]. intros r (Ha & Ho & Hl & _ & Hle & _). left. unfold within. lia.
 Qed.
 
 Lemma chunk_go_pure s size : pure_on (chunk_go s size) (Forall (within s)).
@@ -1253,181 +1244,193 @@ Proof.
   destruct (k' =? k)%Z; [apply incl_tl, incl_refl|]. apply incl_cons; [now left|now apply incl_tl].
 Qed.
 
-(* a loop keeps an invariant of the memory that each iteration keeps *)
+(* a loop keeps an invariant of the memory that each iteration keeps — whether or not it panics *)
 Lemma for_each_inv {X S} (Inv : mem -> Prop) (xs : list X) (body : X -> S -> M S) :
-  (forall x st m st' m', In x xs -> Inv m -> body x st m = Some (st', m') -> Inv m') ->
-  forall st m st' m', Inv m -> for_each xs body st m = Some (st', m') -> Inv m'.
+  (forall x st m o m', In x xs -> Inv m -> body x st m = (o, m') -> Inv m') ->
+  forall st m o m', Inv m -> for_each xs body st m = (o, m') -> Inv m'.
 Proof.
-  induction xs as [|x xs IH]; intros Hb st m st' m' Hi H; cbn in H.
+  induction xs as [|x xs IH]; intros Hb st m o m' Hi H; cbn in H.
   - injection H as <- <-. exact Hi.
-  - unfold bind in H. destruct (body x st m) as [[st1 m1]|] eqn:E; [|discriminate].
-    apply (IH (fun y st m st' m' Hy => Hb y st m st' m' (or_intror Hy)) st1 m1 st' m'); [|exact H].
-    apply (Hb x st m st1 m1); [now left|exact Hi|exact E].
+  - unfold bind in H. destruct (body x st m) as [[st1|] m1] eqn:E.
+    + apply (IH (fun y st m o m' Hy => Hb y st m o m' (or_intror Hy)) st1 m1 o m'); [|exact H].
+      apply (Hb x st m (Some st1) m1); [now left|exact Hi|exact E].
+    + injection H as <- <-. apply (Hb x st m None m1); [now left|exact Hi|exact E].
 Qed.
 
 (* Omit / OmitBy: the entries afterwards are entries that were there before *)
-Lemma omit_mem_submap coll keys m r m' :
-  coll < length m -> omit_mem coll keys m = Some (r, m') ->
-  r = coll /\ length m' = length m /\ incl (map_of m' coll) (map_of m coll).
+Lemma omit_mem_submap coll keys m o m' :
+  coll < length m -> omit_mem coll keys m = (o, m') ->
+  length m' = length m /\ incl (map_of m' coll) (map_of m coll) /\ (forall r, o = Some r -> r = coll).
 Proof.
   intros Hc H. unfold omit_mem, bind in H. cbn [m_entries] in H.
-  destruct (for_each _ _ tt m) as [[u m1]|] eqn:E; [|discriminate]. cbn in H. injection H as <- <-.
-  split; [reflexivity|].
-  apply (for_each_inv (fun m1 => length m1 = length m /\ incl (map_of m1 coll) (map_of m coll)) _ _) in E; auto.
-  - intros kv st mc st' mc' _ [HL HI] Hb. unfold bind in Hb.
-    destruct (contains_go keys (fst kv) mc) as [[c mc2]|] eqn:Ec; [|discriminate].
-    destruct (contains_go_ro keys (fst kv) mc c mc2 Ec) as [-> _].
-    destruct c; cbn in Hb; injection Hb as <- <-; [|now split].
-    split; [now rewrite put_map_length|].
-    rewrite map_of_put_map by lia. eapply incl_tran; [apply map_delete_incl|exact HI].
-  - split; [reflexivity|apply incl_refl].
+  destruct (for_each _ _ tt m) as [[u|] m1] eqn:E; cbn in H; injection H as <- <-.
+  all: apply (for_each_inv (fun m1 => length m1 = length m /\ incl (map_of m1 coll) (map_of m coll)) _ _) in E;
+    [destruct E as [HL HI]; split; [exact HL|]; split; [exact HI|]; intros r Er; now (injection Er as <- || discriminate)
+    | | split; [reflexivity|apply incl_refl]].
+  all: intros kv st mc o mc' _ [HL HI] Hb; unfold bind in Hb;
+    destruct (contains_go keys (fst kv) mc) as [[c|] mc2] eqn:Ec;
+    destruct (contains_go_ro keys (fst kv) mc _ mc2 Ec) as [-> _];
+    [destruct c; cbn in Hb; injection Hb as <- <-; [|now split];
+     split; [now rewrite put_map_length|];
+     rewrite map_of_put_map by lia; eapply incl_tran; [apply map_delete_incl|exact HI]
+    | injection Hb as <- <-; now split].
 Qed.
 
-Lemma omit_by_mem_submap fn coll m r m' :
-  coll < length m -> omit_by_mem fn coll m = Some (r, m') ->
-  r = coll /\ length m' = length m /\ incl (map_of m' coll) (map_of m coll).
+Lemma omit_by_mem_submap fn coll m o m' :
+  coll < length m -> omit_by_mem fn coll m = (o, m') ->
+  length m' = length m /\ incl (map_of m' coll) (map_of m coll) /\ (forall r, o = Some r -> r = coll).
 Proof.
   intros Hc H. unfold omit_by_mem, bind in H. cbn [m_entries] in H.
-  destruct (for_each _ _ tt m) as [[u m1]|] eqn:E; [|discriminate]. cbn in H. injection H as <- <-.
-  split; [reflexivity|].
-  apply (for_each_inv (fun m1 => length m1 = length m /\ incl (map_of m1 coll) (map_of m coll)) _ _) in E; auto.
-  - intros kv st mc st' mc' _ [HL HI] Hb.
-    destruct (fn _ _); cbn in Hb; injection Hb as <- <-; [|now split].
-    split; [now rewrite put_map_length|].
-    rewrite map_of_put_map by lia. eapply incl_tran; [apply map_delete_incl|exact HI].
-  - split; [reflexivity|apply incl_refl].
+  destruct (for_each _ _ tt m) as [[u|] m1] eqn:E; cbn in H; injection H as <- <-.
+  all: apply (for_each_inv (fun m1 => length m1 = length m /\ incl (map_of m1 coll) (map_of m coll)) _ _) in E;
+    [destruct E as [HL HI]; split; [exact HL|]; split; [exact HI|]; intros r Er; now (injection Er as <- || discriminate)
+    | | split; [reflexivity|apply incl_refl]].
+  all: intros kv st mc o mc' _ [HL HI] Hb;
+    destruct (fn _ _); cbn in Hb; injection Hb as <- <-; [|now split];
+    split; [now rewrite put_map_length|];
+    rewrite map_of_put_map by lia; eapply incl_tran; [apply map_delete_incl|exact HI].
 Qed.
 
 (* PartitionMap assigns m[k] = v with the entry it has just read: the memory is unchanged *)
-Lemma partition_map_mem_same fn mtbl ms m r m' :
+Lemma partition_map_mem_same fn mtbl ms m o m' :
   (forall c, is_map m (mtbl c)) ->
-  partition_map_mem fn mtbl ms m = Some (r, m') -> m' = m.
+  partition_map_mem fn mtbl ms m = (o, m') -> m' = m.
 Proof.
   intros Hmaps H. unfold partition_map_mem in H.
   apply (for_each_inv (fun m1 => m1 = m) _ _) in H; auto.
-  intros i [r0 r1] mc st' mc' Hin -> Hb. unfold bind, rd_elem, bind in Hb.
-  destruct (rd ms i m) as [[c m1]|] eqn:Er; [|discriminate].
-  destruct (pure_rd ms i m c m1 Er) as [-> _]. cbn [ret m_entries] in Hb.
+  intros i [r0 r1] mc o' mc' Hin -> Hb. unfold bind, rd_elem, bind in Hb.
+  destruct (rd ms i m) as [[c|] m1] eqn:Er; destruct (pure_rd ms i m _ m1 Er) as [-> _];
+    [|now injection Hb as <- <-].
+  cbn [ret m_entries] in Hb.
   destruct (map_of m (mtbl c)) as [|[k v] rest] eqn:Em; [cbn in Hb; now injection Hb as <- <-|].
   cbn [m_store] in Hb. rewrite Em, map_set_head, <- Em, put_map_same in Hb by apply Hmaps.
   destruct (fn (map_of m (mtbl c))); cbn in Hb; now injection Hb as <- <-.
 Qed.
 
 (* ------------------------------------------------------------------ *)
-(* the statements of C16_Props                                          *)
+(* the statements of C16_Props.  A call's outcome is (o, m'): o = Some rs when it returns (an error
+   return included), o = None when it panics; m' is the memory afterwards in BOTH cases.          *)
 
 Lemma frame_refl m : frame m m.
 Proof. exists []. now rewrite app_nil_r. Qed.
 
-Lemma c16_frame slack c m rs m' :
+Lemma c16_frame slack c m o m' :
   not_in_place c ->
-  run_call slack c m = Some (rs, m') ->
+  run_call slack c m = (o, m') ->
   (exists new_objects, m' = m ++ new_objects) /\
-  (kind_of c = KFresh -> Forall (fresh_ref (length m)) rs).
+  (forall rs, o = Some rs -> kind_of c = KFresh -> Forall (fresh_ref (length m)) rs).
 Proof.
   intros Hnip Hrun. unfold not_in_place in Hnip.
   destruct (kind_of c) as [| | |s|Wm] eqn:Hk; try contradiction.
-  - destruct (run_call_fresh_safe slack noP noW (length m) c Hk m rs m' (le_n _) Hrun) as [S F].
-    split; [now apply same_outside_frame|]. intros _. exact F.
-  - destruct (run_call_view_pure slack c s Hk m rs m' Hrun) as [-> _].
+  - destruct (run_call_fresh_safe slack noP noW (length m) c Hk m o m' (le_n _) Hrun) as [S F].
+    split; [now apply same_outside_frame|]. intros rs E _. now apply F.
+  - destruct (run_call_view_pure slack c s Hk m o m' Hrun) as [-> _].
     split; [apply frame_refl|]. discriminate.
-  - destruct (run_call_view_maps_pure slack c Wm Hk m rs m' Hrun) as [-> _].
+  - destruct (run_call_view_maps_pure slack c Wm Hk m o m' Hrun) as [-> _].
     split; [apply frame_refl|]. discriminate.
 Qed.
 
-Lemma c16_frame_arrays_and_reads slack c m rs m' :
+Lemma c16_frame_arrays_and_reads slack c m o m' :
   not_in_place c ->
-  run_call slack c m = Some (rs, m') ->
+  run_call slack c m = (o, m') ->
   (forall id, id < length m -> arr_of m' id = arr_of m id) /\
   (forall s, s_arr s < length m -> read_all m' s = read_all m s) /\
   (forall id, id < length m -> map_of m' id = map_of m id).
 Proof.
-  intros Hnip Hrun. destruct (c16_frame slack c m rs m' Hnip Hrun) as [Hf _]. split; [|split].
+  intros Hnip Hrun. destruct (c16_frame slack c m o m' Hnip Hrun) as [Hf _]. split; [|split].
   - intros id Hid. now apply frame_arr_of.
   - intros s Hs. now apply frame_read_all.
   - intros id Hid. unfold map_of. f_equal. now apply frame_arr_of.
 Qed.
 
-Lemma c16_in_place_only_that_arg slack c s m rs m' :
+Lemma c16_in_place_only_that_arg slack c s m o m' :
   kind_of c = KInPlaceS s ->
-  run_call slack c m = Some (rs, m') ->
+  run_call slack c m = (o, m') ->
   length m <= length m' /\
   (forall id, id < length m ->
      length (arr_of m' id) = length (arr_of m id) /\
      forall i, ~ (id = s_arr s /\ s_off s <= i < s_off s + s_len s) -> cell m' id i = cell m id i) /\
-  Forall (slice_ref (fun r => (s_arr r = s_arr s /\ s_off r = s_off s /\ s_len r <= s_len s) \/ length m <= s_arr r)) rs.
+  (forall rs, o = Some rs ->
+     Forall (slice_ref (fun r => (s_arr r = s_arr s /\ s_off r = s_off s /\ s_len r <= s_len s) \/ length m <= s_arr r)) rs).
 Proof.
   intros Hip Hrun.
-  destruct (run_call_in_place_safe slack noW (length m) c s Hip m rs m' (le_n _) Hrun) as [(_ & Hlen & H) F].
+  destruct (run_call_in_place_safe slack noW (length m) c s Hip m o m' (le_n _) Hrun) as [(_ & Hlen & H) F].
   split; [exact Hlen|]. split; [|exact F]. intros id Hid. apply H; [exact Hid|unfold noW; tauto].
 Qed.
 
-Lemma c16_in_place_other_arrays_untouched slack c s m rs m' id :
+Lemma c16_in_place_other_arrays_untouched slack c s m o m' id :
   kind_of c = KInPlaceS s ->
-  run_call slack c m = Some (rs, m') ->
+  run_call slack c m = (o, m') ->
   id < length m -> id <> s_arr s -> arr_of m' id = arr_of m id.
 Proof.
   intros Hip Hrun Hid Hne.
-  destruct (run_call_in_place_safe slack noW (length m) c s Hip m rs m' (le_n _) Hrun) as [S _].
+  destruct (run_call_in_place_safe slack noW (length m) c s Hip m o m' (le_n _) Hrun) as [S _].
   apply (same_outside_other_array (win s) noW m m' id S Hid); [unfold noW; tauto|].
   intros i. unfold win. tauto.
 Qed.
 
-Lemma c16_in_place_maps_only_those slack c Wm m rs m' :
+Lemma c16_in_place_maps_only_those slack c Wm m o m' :
   kind_of c = KInPlaceM Wm ->
-  run_call slack c m = Some (rs, m') ->
+  run_call slack c m = (o, m') ->
   length m <= length m' /\
   (forall id, id < length m -> ~ Wm id -> arr_of m' id = arr_of m id) /\
-  Forall (map_ref Wm) rs.
+  (forall rs, o = Some rs -> Forall (map_ref Wm) rs).
 Proof.
   intros Hk Hrun.
-  destruct (run_call_in_place_maps_safe slack noP (length m) c Wm Hk m rs m' (le_n _) Hrun) as [S F].
+  destruct (run_call_in_place_maps_safe slack noP (length m) c Wm Hk m o m' (le_n _) Hrun) as [S F].
   split; [now destruct S as (_ & ? & _)|]. split; [|exact F].
   intros id Hid Hnot. apply (same_outside_other_array noP _ m m' id S Hid Hnot). intros i. unfold noP. tauto.
 Qed.
 
-Lemma c16_omit_only_removes slack coll keys m rs m' :
+Lemma c16_omit_only_removes slack coll keys m o m' :
   coll < length m ->
-  run_call slack (HOmit coll keys) m = Some (rs, m') ->
-  rs = [RM coll] /\ length m' = length m /\ incl (map_of m' coll) (map_of m coll) /\
-  (forall id, id <> coll -> arr_of m' id = arr_of m id).
+  run_call slack (HOmit coll keys) m = (o, m') ->
+  length m' = length m /\ incl (map_of m' coll) (map_of m coll) /\
+  (forall id, id <> coll -> arr_of m' id = arr_of m id) /\
+  (forall rs, o = Some rs -> rs = [RM coll]).
 Proof.
   intros Hc Hrun. assert (Hrun' := Hrun). cbn [run_call] in Hrun. unfold one, bind in Hrun.
-  destruct (omit_mem coll keys m) as [[r m1]|] eqn:E; [|discriminate]. cbn in Hrun. injection Hrun as <- <-.
-  destruct (omit_mem_submap coll keys m r m1 Hc E) as (-> & HL & HI).
-  split; [reflexivity|]. split; [exact HL|]. split; [exact HI|].
-  intros id Hne. destruct (Nat.lt_ge_cases id (length m)) as [Hid|Hid].
-  - destruct (c16_in_place_maps_only_those slack (HOmit coll keys) (eq coll) m _ m1 eq_refl Hrun') as (_ & H & _).
-    apply H; [exact Hid|]. intros ->. now apply Hne.
-  - unfold arr_of. rewrite !nth_overflow by lia. reflexivity.
+  destruct (omit_mem coll keys m) as [o1 m1] eqn:E.
+  destruct (omit_mem_submap coll keys m o1 m1 Hc E) as (HL & HI & Hr).
+  assert (Hm : m' = m1) by (destruct o1; cbn in Hrun; now injection Hrun as <- <-). subst m1.
+  split; [exact HL|]. split; [exact HI|]. split.
+  - intros id Hne. destruct (Nat.lt_ge_cases id (length m)) as [Hid|Hid].
+    + destruct (c16_in_place_maps_only_those slack (HOmit coll keys) (eq coll) m o m' eq_refl Hrun') as (_ & H & _).
+      apply H; [exact Hid|]. intros ->. now apply Hne.
+    + unfold arr_of. rewrite !nth_overflow by lia. reflexivity.
+  - intros rs ->. destruct o1 as [r|]; cbn in Hrun; [|discriminate]. injection Hrun as <-. now rewrite (Hr r eq_refl).
 Qed.
 
-Lemma c16_omit_by_only_removes slack fn coll m rs m' :
+Lemma c16_omit_by_only_removes slack fn coll m o m' :
   coll < length m ->
-  run_call slack (HOmitBy fn coll) m = Some (rs, m') ->
-  rs = [RM coll] /\ length m' = length m /\ incl (map_of m' coll) (map_of m coll) /\
-  (forall id, id <> coll -> arr_of m' id = arr_of m id).
+  run_call slack (HOmitBy fn coll) m = (o, m') ->
+  length m' = length m /\ incl (map_of m' coll) (map_of m coll) /\
+  (forall id, id <> coll -> arr_of m' id = arr_of m id) /\
+  (forall rs, o = Some rs -> rs = [RM coll]).
 Proof.
   intros Hc Hrun. assert (Hrun' := Hrun). cbn [run_call] in Hrun. unfold one, bind in Hrun.
-  destruct (omit_by_mem fn coll m) as [[r m1]|] eqn:E; [|discriminate]. cbn in Hrun. injection Hrun as <- <-.
-  destruct (omit_by_mem_submap fn coll m r m1 Hc E) as (-> & HL & HI).
-  split; [reflexivity|]. split; [exact HL|]. split; [exact HI|].
-  intros id Hne. destruct (Nat.lt_ge_cases id (length m)) as [Hid|Hid].
-  - destruct (c16_in_place_maps_only_those slack (HOmitBy fn coll) (eq coll) m _ m1 eq_refl Hrun') as (_ & H & _).
-    apply H; [exact Hid|]. intros ->. now apply Hne.
-  - unfold arr_of. rewrite !nth_overflow by lia. reflexivity.
+  destruct (omit_by_mem fn coll m) as [o1 m1] eqn:E.
+  destruct (omit_by_mem_submap fn coll m o1 m1 Hc E) as (HL & HI & Hr).
+  assert (Hm : m' = m1) by (destruct o1; cbn in Hrun; now injection Hrun as <- <-). subst m1.
+  split; [exact HL|]. split; [exact HI|]. split.
+  - intros id Hne. destruct (Nat.lt_ge_cases id (length m)) as [Hid|Hid].
+    + destruct (c16_in_place_maps_only_those slack (HOmitBy fn coll) (eq coll) m o m' eq_refl Hrun') as (_ & H & _).
+      apply H; [exact Hid|]. intros ->. now apply Hne.
+    + unfold arr_of. rewrite !nth_overflow by lia. reflexivity.
+  - intros rs ->. destruct o1 as [r|]; cbn in Hrun; [|discriminate]. injection Hrun as <-. now rewrite (Hr r eq_refl).
 Qed.
 
-Lemma c16_partition_map_writes_nothing slack fn mtbl ms m rs m' :
+Lemma c16_partition_map_writes_nothing slack fn mtbl ms m o m' :
   (forall c, is_map m (mtbl c)) ->
-  run_call slack (HPartitionMap fn mtbl ms) m = Some (rs, m') ->
-  m' = m /\ Forall (map_ref (image mtbl)) rs.
+  run_call slack (HPartitionMap fn mtbl ms) m = (o, m') ->
+  m' = m /\ (forall rs, o = Some rs -> Forall (map_ref (image mtbl)) rs).
 Proof.
   intros Hmaps Hrun. assert (Hrun' := Hrun). cbn [run_call] in Hrun. unfold bind in Hrun.
-  destruct (partition_map_mem fn mtbl ms m) as [[r m1]|] eqn:E; [|discriminate]. cbn in Hrun. injection Hrun as <- <-.
-  split; [now apply (partition_map_mem_same fn mtbl ms m r m1)|].
-  destruct (partition_map_mem_safe noP (image mtbl) (length m) fn mtbl ms (fun c => ex_intro _ c eq_refl) m r m1 (le_n _) E) as [_ F].
-  rewrite Forall_map. exact F.
+  destruct (partition_map_mem fn mtbl ms m) as [o1 m1] eqn:E.
+  assert (Hm : m' = m1) by (destruct o1; cbn in Hrun; now injection Hrun as <- <-). subst m1.
+  split; [now apply (partition_map_mem_same fn mtbl ms m o1 m')|].
+  destruct (c16_in_place_maps_only_those slack (HPartitionMap fn mtbl ms) (image mtbl) m o m' eq_refl Hrun') as (_ & _ & F).
+  exact F.
 Qed.
 
 (* what a reference shows depends only on the object it names *)
@@ -1451,36 +1454,36 @@ Definition target_older_than (n0 : nat) (c : hcall) : Prop :=
   | _ => True
   end.
 
-Lemma c16_earlier_results_survive slack c1 c2 m0 rs1 m1 rs2 m2 r :
-  run_call slack c1 m0 = Some (rs1, m1) ->
-  run_call slack c2 m1 = Some (rs2, m2) ->
+Lemma c16_earlier_results_survive slack c1 c2 m0 rs1 m1 o2 m2 r :
+  run_call slack c1 m0 = (Some rs1, m1) ->
+  run_call slack c2 m1 = (o2, m2) ->
   kind_of c1 = KFresh -> In r rs1 -> names_existing m1 r ->
   target_older_than (length m0) c2 ->
   read_ref m2 r = read_ref m1 r.
 Proof.
   intros H1 H2 Hf Hin Hex Ht.
-  destruct (run_call_fresh_safe slack noP noW (length m0) c1 Hf m0 rs1 m1 (le_n _) H1) as [_ F].
-  rewrite Forall_forall in F. specialize (F r Hin).
+  destruct (run_call_fresh_safe slack noP noW (length m0) c1 Hf m0 (Some rs1) m1 (le_n _) H1) as [_ F].
+  specialize (F rs1 eq_refl). rewrite Forall_forall in F. specialize (F r Hin).
   assert (Hobj : forall id, length m0 <= id -> id < length m1 -> arr_of m2 id = arr_of m1 id).
   { intros id Hge Hlt. unfold target_older_than in Ht.
     destruct (kind_of c2) as [|s|Wm|s|Wm] eqn:Hk2.
-    - destruct (c16_frame slack c2 m1 rs2 m2 ltac:(unfold not_in_place; now rewrite Hk2) H2) as [Hfr _]. now apply frame_arr_of.
-    - apply (c16_in_place_other_arrays_untouched slack c2 s m1 rs2 m2 id Hk2 H2 Hlt). lia.
-    - destruct (c16_in_place_maps_only_those slack c2 Wm m1 rs2 m2 Hk2 H2) as (_ & H & _).
+    - destruct (c16_frame slack c2 m1 o2 m2 ltac:(unfold not_in_place; now rewrite Hk2) H2) as [Hfr _]. now apply frame_arr_of.
+    - apply (c16_in_place_other_arrays_untouched slack c2 s m1 o2 m2 id Hk2 H2 Hlt). lia.
+    - destruct (c16_in_place_maps_only_those slack c2 Wm m1 o2 m2 Hk2 H2) as (_ & H & _).
       apply H; [exact Hlt|]. intros HW. specialize (Ht id HW). lia.
-    - destruct (c16_frame slack c2 m1 rs2 m2 ltac:(unfold not_in_place; now rewrite Hk2) H2) as [Hfr _]. now apply frame_arr_of.
-    - destruct (c16_frame slack c2 m1 rs2 m2 ltac:(unfold not_in_place; now rewrite Hk2) H2) as [Hfr _]. now apply frame_arr_of. }
+    - destruct (c16_frame slack c2 m1 o2 m2 ltac:(unfold not_in_place; now rewrite Hk2) H2) as [Hfr _]. now apply frame_arr_of.
+    - destruct (c16_frame slack c2 m1 o2 m2 ltac:(unfold not_in_place; now rewrite Hk2) H2) as [Hfr _]. now apply frame_arr_of. }
   apply read_ref_same_object. destruct r as [pre s|id|v]; cbn in *; [| |exact I].
   - destruct Hex as [Hex|Hl]; [|now right]. destruct F as [Hfresh|[Hl _]]; [|now right]. left. now apply Hobj.
   - now apply Hobj.
 Qed.
 
-Lemma c16_arguments_survive slack c m rs m' s :
+Lemma c16_arguments_survive slack c m o m' s :
   not_in_place c ->
-  run_call slack c m = Some (rs, m') ->
+  run_call slack c m = (o, m') ->
   s_arr s < length m ->
   arr_of m' (s_arr s) = arr_of m (s_arr s) /\ read_all m' s = read_all m s.
 Proof.
   intros Hnip Hrun Hs.
-  destruct (c16_frame_arrays_and_reads slack c m rs m' Hnip Hrun) as (Ha & Hr & _). auto.
+  destruct (c16_frame_arrays_and_reads slack c m o m' Hnip Hrun) as (Ha & Hr & _). auto.
 Qed.
